@@ -26,6 +26,8 @@ import Driver.Frame
 import Driver.Ether
 import Driver.TxGas
 import Driver.OpFees
+import Driver.AccessTx
+import Driver.AccessSets
 /-! Line-protocol driver: one request per line on stdin, one reply per line on stdout.
 Stateless components are dispatched on the first token. A stateful component `X` adds a field
 `x : Driver.X.St := Driver.X.St.init` to `DState`, resets it on `begin x …` and threads it through
@@ -48,6 +50,7 @@ structure DState where
   hcfg : Driver.HandlerCfg.St := Driver.HandlerCfg.St.init
   frame : Driver.Frame.St := Driver.Frame.St.init
   ether : Driver.Ether.St := Driver.Ether.St.init
+  acc : Driver.AccessSets.St := Driver.AccessSets.St.init
   -- stateful component states go here
 
 def step (st : DState) (line : String) : DState × String :=
@@ -98,6 +101,9 @@ def step (st : DState) (line : String) : DState × String :=
   | "txgas" :: r => (st, TxGas.handle r)
   | "opfee" :: r => (st, OpFees.handleOpfee r)
   | "optx" :: r => (st, OpFees.handleOptx r)
+  | "acctx" :: r => (st, AccessTx.handle r)
+  | "begin" :: "acc" :: r => let (s, out) := Driver.AccessSets.begin r; ({ st with acc := s }, out)
+  | "a" :: r => let (s, out) := Driver.AccessSets.handle st.acc r; ({ st with acc := s }, out)
   | _ => (st, "bad-op")
 
 partial def loop (hin hout : IO.FS.Stream) (st : DState) : IO Unit := do
